@@ -1,8 +1,10 @@
 (* Model of time-derived key slots, segment timestamps and the key cache.
    Mirrors pkg/cipher/keygen.go (saltFromTime), pkg/cipher/api.go (cipherKeyEpoch),
    pkg/cipher/cache.go (getCachedCiphers), StatelessDecryptor.tryDecryptAt,
-   pkg/mathext/numbers.go (Mid, WithinRange at uint32) and the timestamp test of
-   pkg/protocol/metadata.go (Unmarshal).
+   pkg/mathext/numbers.go (Mid, WithinRange at uint32), the timestamp test of
+   pkg/protocol/metadata.go (Unmarshal) and, at the end, the scheduling window of the
+   key-holding client underlay (pkg/protocol/underlay_packet.go NewPacketUnderlay,
+   scheduler.go ScheduleController).
    Times are unix nanoseconds (Z).  Definitions only: no proofs here. *)
 From Coq Require Import ZArith List Bool.
 Import ListNotations.
@@ -89,3 +91,29 @@ Definition within_range32 (v target margin : Z) : bool :=
 (* the receiver's test in Unmarshal: current = receiver's minute, original = stamped *)
 Definition timestamp_ok (recv_now sender_now : Z) : bool :=
   within_range32 (minute recv_now) (minute sender_now) 1.
+
+(* ---- the AGE of the key-holding client underlay ----
+   pkg/protocol: a client PacketUnderlay (UDP) is created with ONE block cipher, derived by
+   mux.newUnderlay -> cipher.BlockCipherFromPassword at its creation instant c, i.e. the key of epoch(c);
+   every new session that the mux schedules onto it starts with an open-session request under that key.
+   NewPacketUnderlay sets the ScheduleController's disableTime to c + window; IncPending / IsDisabled
+   refuse iff time.Since(disableTime) > 0, i.e. the underlay takes a new session at age a iff a <= window.
+   The server has no session for the request yet: it first tries the ciphers of its live sessions from
+   the same source address (tryDecryptExistingSession; not time dependent, so a live older session of
+   the same client socket hides the age) and otherwise the three keys of its own clock.  The model is
+   the server without such a live session, i.e. the history in which the underlay's earlier sessions
+   are over.
+   (A StreamUnderlay, TCP, also derives one key per connection, but the server runs key discovery only on
+   the first segment of the connection and both ends continue with the stateful cipher: a session opened
+   later on an old connection does not depend on any time slot; the only age there is the latency between
+   the client's dial and the server's read of the first segment.) *)
+Definition underlay_takes_sessions (window age : Z) : bool := age <=? window.
+
+(* the receiver at [server_now] tries its three slots for a box sealed with the key of [key_slot] *)
+Definition key_found (refresh key_slot server_now : Z) : bool :=
+  existsb (Z.eqb key_slot) (slots refresh server_now).
+
+(* open-session request of a session scheduled onto an underlay created at [c], sent at client time
+   [t_send] (fresh minute stamp), read by a server whose clock is [skew] away *)
+Definition open_request_ok (refresh c t_send skew : Z) : bool :=
+  key_found refresh (epoch refresh c) (t_send + skew) && timestamp_ok (t_send + skew) t_send.
